@@ -166,8 +166,8 @@ theorem range_spec_machine (fuel : Nat) (p : Prog) (s : St) (h0 : s.visits = [])
   exact rangeRun_selected _ k (by simpa using hk)
 
 /-- the rule step of the machine is the automaton step (so `range_spec` speaks about `runRules`) -/
-theorem range_step_is_machine (b e : View → Bool) (flag : Bool) (v : View) :
-    matchPat (.range b e) flag v = rangeStep flag (b v) (e v) := rfl
+theorem range_step_is_machine (b e : View → PRes) (flag : Bool) (v : View) :
+    matchPat (.range b e) flag v = rangeStep flag (b v).toBool (e v).toBool := rfl
 
 /-- a range already open stays open until a record satisfies the second pattern, across file boundaries too: the flag
 depends on nothing but the previous flag and the two pattern values -/
@@ -193,12 +193,57 @@ theorem unwind_cond (c : View → Bool) (body : List Op) (s : St) (hc : c s.view
 /-- at rule level: when the body of a matching rule raises a signal, the later rules are not visited for this record —
 their range flags are untouched and the state is the one the signal left -/
 theorem next_abandons_rules (r : Rule) (rs : List Rule) (f : Bool) (fl : List Bool) (s s1 : St) (ops : List Op) (sig : Sig)
-    (i : Nat) (hm : (matchPat r.pat f s.view).1 = true) (hb : r.body = some ops)
+    (i : Nat) (hp : patSignal r.pat f s.view = none) (hm : (matchPat r.pat f s.view).1 = true) (hb : r.body = some ops)
     (h : execOps ops (s.logVisit i r.pat f) = (sig, s1)) (hs : sig ≠ .normal) :
     runRules i (r :: rs) (f :: fl) s = (sig, (matchPat r.pat f s.view).2 :: fl, s1) := by
   unfold runRules
-  simp only [hm, hb, h]
+  simp only [hp, hm, hb, h]
   cases sig <;> first | rfl | exact absurd rfl hs
+
+/-- **next / nextfile from a function called in a PATTERN** (the repaired Gc11-1): the only signals a pattern can raise are
+next and nextfile … -/
+theorem pattern_raises_next_or_nextfile (p : Pat) (f : Bool) (v : View) (sg : Sig) (h : patSignal p f v = some sg) :
+    sg = .next ∨ sg = .nextfile := by
+  have key : ∀ r : PRes, r.sig? = some sg → sg = .next ∨ sg = .nextfile := by
+    intro r hr
+    cases r <;> simp [PRes.sig?] at hr
+    · exact Or.inl hr.symm
+    · exact Or.inr hr.symm
+  cases p with
+  | always => simp [patSignal] at h
+  | pred c => exact key _ h
+  | range b e =>
+    simp only [patSignal] at h
+    split at h
+    · exact key _ h
+    · split at h
+      · rename_i sg' hb
+        cases h
+        exact key _ hb
+      · split at h
+        · exact key _ h
+        · cases h
+
+/-- … and when one is raised the record is abandoned right there: the rule's action does not run, no later rule is visited
+(their flags are untouched), nothing is printed, `$0` is untouched; the main loop then proceeds as for a next / nextfile
+statement in an action (`next_continues`, `nextfile_continues`). -/
+theorem next_from_pattern_abandons (i : Nat) (r : Rule) (rs : List Rule) (f : Bool) (fl : List Bool) (s : St) (sg : Sig)
+    (h : patSignal r.pat f s.view = some sg) :
+    (runRules i (r :: rs) (f :: fl) s).1 = sg ∧ (runRules i (r :: rs) (f :: fl) s).2.1.tail = fl ∧
+    (runRules i (r :: rs) (f :: fl) s).2.2.out = s.out ∧ (runRules i (r :: rs) (f :: fl) s).2.2.line = s.line ∧
+    (runRules i (r :: rs) (f :: fl) s).2.2.nr = s.nr := by
+  unfold runRules
+  simp only [h]
+  split
+  · exact ⟨rfl, rfl, rfl, rfl, rfl⟩
+  · refine ⟨rfl, rfl, ?_, ?_, ?_⟩ <;> (unfold St.logVisit; split <;> rfl)
+
+/-- for a single-pattern rule: the flag is untouched as well and the state is exactly the one before -/
+theorem next_from_pred_pattern (i : Nat) (c : View → PRes) (body : Option (List Op)) (rs : List Rule) (f : Bool)
+    (fl : List Bool) (s : St) (h : c s.view = .next) :
+    runRules i (⟨.pred c, body⟩ :: rs) (f :: fl) s = (.next, f :: fl, s) := by
+  unfold runRules
+  simp [patSignal, beginRaises, matchPat, St.logVisit, h, PRes.sig?]
 
 /-- at main-loop level: `next` goes straight to the next record; `nextfile` drops the scanner first, so that the next
 record comes from the operand walk (the rest of the current file is never delivered) -/
@@ -277,22 +322,30 @@ example : ((run 100 ⟨[], [⟨.always, some [.emit 0]⟩], none⟩ w0).2.out.re
   decide +kernel
 
 /-- next from inside a call inside a loop abandons the record; exit 3 inside a function still runs END with the last `$0` -/
-example : ((run 100 ⟨[], [⟨.pred (fun v => v.nr == 2), some [.loop 2 [.call [.next, .emit 1]], .emit 2]⟩,
-                          ⟨.pred (fun v => v.nr == 4), some [.call [.exit (some 3)], .emit 3]⟩,
+example : ((run 100 ⟨[], [⟨.pred (fun v => .val (v.nr == 2)), some [.loop 2 [.call [.next, .emit 1]], .emit 2]⟩,
+                          ⟨.pred (fun v => .val (v.nr == 4)), some [.call [.exit (some 3)], .emit 3]⟩,
                           ⟨.always, some [.emit 0]⟩], some [.emit 9]⟩ w0).2.out.reverse.map fun
       | .emit tag nr _ _ line _ _ _ => (tag, nr, line)
       | .ctl k _ => (100 + k, 0, [])
       | _ => (0, 0, [])) =
     [(0, 1, [112]), (101, 0, []), (0, 3, [97]), (103, 0, []), (9, 4, [98])] ∧
-    (run 100 ⟨[], [⟨.pred (fun v => v.nr == 4), some [.call [.exit (some 3)]]⟩], some [.emit 9]⟩ w0).2.status = 3 := by
+    (run 100 ⟨[], [⟨.pred (fun v => .val (v.nr == 4)), some [.call [.exit (some 3)]]⟩], some [.emit 9]⟩ w0).2.status = 3 := by
   decide +kernel
 
 /-- a range rule behind a rule that executes `next` on record 3: the range rule is visited for records 1, 2, 4, 5 only;
 it opens on record 2 (`q`), is not closed by record 3 (never seen) and closes on record 4 (`b`) -/
-example : (history 1 (run 100 ⟨[], [⟨.pred (fun v => v.nr == 3), some [.next]⟩,
-                                      ⟨.range (fun v => v.line == [113]) (fun v => v.line == [98] || v.line == [97]), some [.emit 1]⟩], none⟩
+example : (history 1 (run 100 ⟨[], [⟨.pred (fun v => .val (v.nr == 3)), some [.next]⟩,
+                                      ⟨.range (fun v => .val (v.line == [113])) (fun v => .val (v.line == [98] || v.line == [97])), some [.emit 1]⟩], none⟩
       w0).2.visits).map (fun v => (v.b, v.e, v.matched)) =
     [(false, false, false), (true, false, true), (false, true, true), (false, false, false)] := by
+  decide +kernel
+
+/-- the witness of the repaired Gc11-1 on the machine: a pattern whose function executes `next` on records 2 and 3 and
+`nextfile` never; records 1, 4, 5 are printed, END sees NR = 5 -/
+example : ((run 100 ⟨[], [⟨.pred (fun v => if v.nr == 2 || v.nr == 3 then .next else .val true), some [.emit 1]⟩], some [.emit 9]⟩
+      w0).2.out.reverse.map fun
+      | .emit tag nr _ _ _ _ _ _ => (tag, nr)
+      | _ => (0, 0)) = [(1, 1), (1, 4), (1, 5), (9, 5)] := by
   decide +kernel
 
 /-- a range that opens and closes on the same record, and one that stays open -/
